@@ -114,12 +114,33 @@ def _tla_unquote(line):
     return ''.join(out)
 
 
+def tla_str(s):
+    """TLA+ string literal (module syntax; cfg files do NOT unescape)"""
+    return '"' + s.replace('\\', '\\\\').replace('"', '\\"') + '"'
+
+
+def tla_set(items):
+    return '{' + ', '.join(tla_str(x) for x in items) + '}'
+
+
 def tlc(module, cfg_text, *, workers=None, env=None, simulate=None,
         depth=None, seed=None, coverage=False, timeout=3600, deque=False,
-        extra=()):
-    """Run TLC on /verif/spec/<module>.tla with the given cfg text."""
+        extra=(), defs=None):
+    """Run TLC on /verif/spec/<module>.tla with the given cfg text.
+    `defs`: TLA+ definitions (constants that a cfg file cannot express, e.g.
+    strings containing backslashes or quotes, tuples); a wrapper module that
+    EXTENDS <module> and holds them is generated and the cfg substitutes
+    them with `Const <- Def`."""
     work = tempfile.mkdtemp(prefix='verif-tlc-')
     try:
+        target = os.path.join(SPEC, module + '.tla')
+        if defs:
+            wrap = 'MC_' + module
+            with open(os.path.join(work, wrap + '.tla'), 'w') as f:
+                f.write('---- MODULE %s ----\nEXTENDS %s\n%s\n====\n' %
+                        (wrap, module, defs))
+            target = os.path.join(work, wrap + '.tla')
+            module = wrap
         cfg = os.path.join(work, module + '.cfg')
         with open(cfg, 'w') as f:
             f.write(cfg_text)
@@ -135,9 +156,9 @@ def tlc(module, cfg_text, *, workers=None, env=None, simulate=None,
         if coverage:
             cmd += ['-coverage', '1']
         cmd += list(extra)
-        cmd.append(os.path.join(SPEC, module + '.tla'))
+        cmd.append(target)
         e = dict(os.environ)
-        opts = ['-Xss64m', '-XX:ParallelGCThreads=%d' % max(2, min(8, int(workers or NCPU)))]
+        opts = ['-Xss64m', '-DTLA-Library=' + SPEC, '-XX:ParallelGCThreads=%d' % max(2, min(8, int(workers or NCPU)))]
         if deque:
             opts.append('-Dtlc2.tool.queue.IStateQueue=StateDeque')
         e['JAVA_TOOL_OPTIONS'] = ' '.join(opts)
